@@ -155,6 +155,17 @@ func init() {
 				if c.Prob(0.4) && rc.Form != FormConnectGet {
 					rc.RawBody, rc.HasRawBody = c.Bytes(c.Intn(60)), true // bytes that are not valid in the protocol
 				}
+				if rc.Compression == "" && rc.Form != FormConnectGet && c.Prob(0.2) {
+					// "no compression", spelled out: still nothing to convert
+					hdr := "Content-Encoding"
+					switch rc.Form {
+					case FormGRPC, FormGRPCWeb:
+						hdr = "Grpc-Encoding"
+					case FormConnectStream:
+						hdr = "Connect-Content-Encoding"
+					}
+					rc.ExtraHdrs = append(rc.ExtraHdrs, [2]string{hdr, "identity"})
+				}
 				if c.Prob(0.3) && rc.Form != FormConnectGet {
 					rc.RawQuery = Pick(c, "a=b", "x=%2F&y", "", "q")
 					if rc.RawQuery != "" {
